@@ -21,6 +21,12 @@ class Dying(BacktrackSolver):
             def __init__(s): s.n = 0
             def put(s, item):
                 if s.n == n:
+                    # what was put before must really have left this process (the queue's feeder thread flushes asynchronously):
+                    # otherwise "dies after k messages" silently becomes "dies before the first message"
+                    try:
+                        q.close(); q.join_thread()
+                    except Exception:
+                        pass
                     if MODE == "exit": os._exit(3)
                     if MODE == "raise": raise RuntimeError("boom")
                     if MODE == "kill": os.kill(os.getpid(), 9)
@@ -79,9 +85,14 @@ def run(ctx):
         for die_after in (0, 2, 4):  # a 2-boolean problem has 4 solutions + marker: 0 = before first, 2 = between, 4 = before marker
             for mode in (("exit",) if ctx["tier"] == "quick" else ("exit", "raise", "kill")):
                 scenarios.append((workers, workers - 1, die_after, mode, False))
-    scenarios.append((2, 0, 0, "exit", True))
+    # optimisation: death before the first message, and death AFTER a solution was sent (instead of the completion marker) — alone,
+    # as the last worker to speak, or while another worker is still to speak
+    opt_sc = [(2, 0, 0, "exit", True), (1, 0, 1, "exit", True), (2, 1, 1, "exit", True), (2, 0, 1, "kill", True)]
+    if ctx["tier"] == "thorough":
+        opt_sc += [(3, 2, 1, "raise", True), (3, 0, 1, "exit", True), (1, 0, 1, "kill", True)]
     if ctx["tier"] == "quick":
-        scenarios = scenarios[:5] + scenarios[-1:]
+        scenarios = scenarios[:5]
+    scenarios += opt_sc
     procs = []
     for sc in scenarios:
         out = real_death(*sc)
@@ -121,7 +132,8 @@ def run(ctx):
             ev.append(("T", dead))
             ev.append(("T", dead))
             return ev
-        impl, req, info = mp_case(prob, k, v, sched, "solve", rng)
+        mode_ = "solve" if rng.random() < 0.6 else (rng.choice(["min", "max"]), rng.randrange(len(prob.idx)))
+        impl, req, info = mp_case(prob, k, v, sched, mode_, rng)
         reqs.append((req, impl, {"problem": prob.to_json(), "k": k, "v": v}))
         report.cov["evaluations"] += 1
         report.nontrivial(req)
